@@ -152,17 +152,17 @@ class Proj:
     """one generated project: text, presets and the facts the reference expects of it"""
 
 
-def gen_project(dim):
+def gen_project(dim, full=False):
     """dim = 'inputs': what B and C consume varies (consumers fixed); 'consumers': alias / run target / test / benchmark vary (inputs fixed); 'all': both"""
     pr = Proj()
     PS = pr.presets = {}
     two_a = choose(2, 'outputs of A') == 1
     a_outs = ['a1.txt', 'a2.txt'] if two_a else ['a1.txt']
     # the flags matter for what is built by default / installed: symbolic where the consumers vary; where the INPUTS vary only the index and the install flag are
-    PS['BA'] = sym_bool('A.build_by_default') if dim != 'inputs' else False
-    PS['BB'] = sym_bool('B.build_by_default') if dim != 'inputs' else False
+    PS['BA'] = sym_bool('A.build_by_default') if (dim != 'inputs' or full) else False
+    PS['BB'] = sym_bool('B.build_by_default') if (dim != 'inputs' or full) else False
     PS['IC'] = sym_bool('C.install')
-    PS['SC'] = sym_bool('C.build_always_stale') if dim == 'all' else False
+    PS['SC'] = sym_bool('C.build_always_stale') if full else False
     PS['IA'] = sym_int('index into A', 0, len(a_outs) - 1)
     vary_in = dim in ('inputs', 'all'); vary_co = dim in ('consumers', 'all')
     in_b = choose(7, 'input of B') if vary_in else 2
@@ -172,7 +172,7 @@ def gen_project(dim):
     EAS = ['plain', 'a\\b', 'keep@INPUT@', '@BUILD_DIR@/y', '@OUTPUT0@']      # extra_args of generator.process(): passed on verbatim - no template substitution, no backslash normalisation
     ea = EAS[choose(len(EAS), 'generator extra_args')] if (vary_in and in_b == 4) else 'plain'
     extra = choose(9, 'alias / run target') if vary_co else 0        # alias_target() takes whole targets only; 7: an alias of an alias, 8: an alias of a run target
-    tst = choose(11, 'test') if vary_co else 1
+    tst = choose(12, 'test') if vary_co else 1          # 11: a test AND a benchmark that use the same target
     flat = (choose(2, 'layout') == 1) if ((vary_in and place != 0 and in_b in (0, 1)) or (vary_co and extra in (7, 8))) else False        # --layout=flat: every target output under meson-out/ (plus build_subdir)
     pr.flat = flat
     bdir = ('sub/' if b_sub else ('deep/' if place == 2 else '')) if not flat else ('meson-out/deep/' if place == 2 else 'meson-out/')
@@ -186,7 +186,7 @@ def gen_project(dim):
         ('input : %s, ' % inb_expr) if inb_expr else '', PYCMD, "'@INPUT@', " if inb_expr else '', ", depends : A, depend_files : files('%sin.txt')" % ('../' if b_sub else '') if in_b == 6 else '',
         ", build_subdir : 'deep'" if place == 2 else '')
     files = {'in.txt': '', 'dep.txt': '', 'd/one.dat': '', 'two.dat': ''}
-    PS['PP'] = sym_bool('install_data.preserve_path') if (vary_in and in_b == 0) else True
+    PS['PP'] = sym_bool('install_data.preserve_path') if (vary_in and (in_b == 0 or full)) else True
     L.append("install_data('d/one.dat', 'two.dat', preserve_path : PP, install_dir : 'share/kept')")
     if b_sub:
         L.append("subdir('sub')"); files['sub/meson.build'] = bl + '\n'
@@ -200,11 +200,12 @@ def gen_project(dim):
     elif extra == 6: L.append("run_target('rt', command : %s], depends : %s)" % (PYCMD, X))
     elif extra == 7: L.append("al = alias_target('al', %s)" % X); L.append("alias_target('al2', al)")
     elif extra == 8: L.append("rt = run_target('rt', command : %s], depends : %s)" % (PYCMD, X)); L.append("alias_target('al2', rt)")
-    TX = [None, 'B', 'A[IA]', 'C[1]', 'B', 'A[IA]', 'C', 'A[IA]', 'C[0]', 'B', 'A[IA]'][tst]
-    kind = 'benchmark' if tst >= 9 else 'test'
+    TX = [None, 'B', 'A[IA]', 'C[1]', 'B', 'A[IA]', 'C', 'A[IA]', 'C[0]', 'B', 'A[IA]', 'B'][tst]
+    kind = 'benchmark' if tst in (9, 10) else 'test'
     if tst in (1, 2, 3, 9, 10): L.append("%s('t', py, args : ['-c', 'pass', %s])" % (kind, TX))
     elif tst in (4, 5, 6): L.append("test('t', py, args : ['-c', 'pass'], depends : %s)" % TX)
     elif tst in (7, 8): L.append("test('t', %s)" % TX)
+    elif tst == 11: L.append("test('t', py, args : ['-c', 'pass', %s])" % TX); L.append("benchmark('b', py, args : ['-c', 'pass', %s])" % TX)
     files['meson.build'] = '\n'.join(L) + '\n'
     pr.files = files
     # ---- expected facts (reference, from the description above and the documentation of the functions used)
@@ -225,14 +226,14 @@ def gen_project(dim):
     pr.alias = (target_of(X) if extra in (1, 2, 3, 7) else None)
     pr.run_needs = (target_of(X) if extra in (4, 5, 6, 8) else None)
     pr.alias2 = target_of(X) if extra in (7, 8) else None
-    pr.test_needs = target_of(TX) if tst < 9 else None
+    pr.test_needs = target_of(TX) if (tst < 9 or tst == 11) else None
     pr.bench_needs = target_of(TX) if tst >= 9 else None
     pr.tst, pr.extra, pr.in_b, pr.in_c, pr.ia, pr.ea = tst, extra, in_b, in_c, ia, ea
     return pr
 
 
-def run_project(dim):
-    pr = gen_project(dim)
+def run_project(dim, full=False):
+    pr = gen_project(dim, full)
     c = configure(pr.files, pr.presets, pr.flat)
     return pr, c, Graph(c)
 
